@@ -339,7 +339,7 @@ struct Ex {
         } else if (auto *RS = dyn_cast<ReturnStmt>(S)) { E["k"]="return"; if (RS->getRetValue()) { E["path"]=path(RS->getRetValue()); if (auto v = constVal(RS->getRetValue()); v.kind()!=json::Value::Null) E["const"]=v; int re = evOf(RS->getRetValue()); if (re>=0) E["ret_ev"]=re; } keep = true;
         } else if (auto *CR = dyn_cast<CoreturnStmt>(S)) { E["k"]="return"; E["co"]=true; if (CR->getOperand()) E["path"]=path(CR->getOperand()); keep = true;
         } else if (auto *TE = dyn_cast<CXXThrowExpr>(S)) { E["k"]="throw"; if (TE->getSubExpr()) E["type"]=TE->getSubExpr()->getType().getAsString(); else E["rethrow"]=true; keep = true;
-        } else if (auto *DS = dyn_cast<DeclStmt>(S)) { for (auto *D : DS->decls()) if (auto *VD = dyn_cast<VarDecl>(D)) { E["k"]="decl"; E["var"]=VD->getNameAsString(); E["type"]=VD->getType().getAsString(); E["ref"]=VD->getType()->isReferenceType(); E["ptr"]=VD->getType()->isPointerType(); if (VD->getInit()) { E["init"]=path(VD->getInit()); int ie = evOf(VD->getInit()); if (ie>=0) E["init_ev"]=ie; else if (auto *CC2 = dyn_cast<CXXConstructExpr>(peelVal(VD->getInit()))) { auto it2 = ids.find(CC2); if (it2!=ids.end()) E["init_ev"]=it2->second; } if (auto v = constVal(VD->getInit()); v.kind()!=json::Value::Null) E["const"]=v; } keep = true; } }
+        } else if (auto *DS = dyn_cast<DeclStmt>(S)) { for (auto *D : DS->decls()) if (auto *VD = dyn_cast<VarDecl>(D)) { E["k"]="decl"; E["var"]=VD->getNameAsString(); E["type"]=VD->getType().getAsString(); E["ref"]=VD->getType()->isReferenceType(); E["ptr"]=VD->getType()->isPointerType(); if (VD->getInit()) { E["init"]=path(VD->getInit()); { std::string ff = firstField(VD->getInit()); if (!ff.empty()) E["init_field"]=ff; } int ie = evOf(VD->getInit()); if (ie>=0) E["init_ev"]=ie; else if (auto *CC2 = dyn_cast<CXXConstructExpr>(peelVal(VD->getInit()))) { auto it2 = ids.find(CC2); if (it2!=ids.end()) E["init_ev"]=it2->second; } if (auto v = constVal(VD->getInit()); v.kind()!=json::Value::Null) E["const"]=v; } keep = true; } }
         else if (auto *LE = dyn_cast<LambdaExpr>(S)) {
           E["k"]="lambda"; E["fn_key"]=loc(LE->getCallOperator()->getLocation()); E["use"]=useOf(S, PM); keep = true; json::Array caps;
           auto *RD = LE->getLambdaClass(); auto FI = RD->field_begin(); auto CI = LE->capture_init_begin();
